@@ -433,6 +433,7 @@ fn clause_for(spec: &ClauseSpec, uids: &[u16]) -> DynClause {
         }
         M::Af => ref1::clause(AsyncAMock::af, spec, uids),
         M::Ag => ref1::clause(AsyncAMock::ag, spec, uids),
+        M::Ai => ref1::clause(AsyncAMock::ai, spec, uids),
         M::At => ref1::clause(AsyncTMock::at, spec, uids),
         M::GenU8 => gen_u8(spec, uids),
         M::GenU16 => gen_u16(spec, uids),
